@@ -14,9 +14,50 @@ from sa.sm import Func, call_kw, const_str, dotted, find_calls, norm, walk_no_ne
 # scheme models (cached per context)
 
 def scheme_models(ctx: Ctx) -> dict[str, S.SchemeModel]:
+    """Path tables of the scheme builders.  A builder whose loop structure the path model does not understand is
+    left out (ctx._scheme_model_errors says why); check_single_pass judges its structure on abstract values."""
     if "scheme_models" not in ctx.__dict__:
-        ctx.scheme_models = {f.name: S.build(ctx.sm, f) for f in S.scheme_builders(ctx.sm)}
+        ctx.scheme_models = {}
+        ctx._scheme_model_errors = {}
+        for f in S.scheme_builders(ctx.sm):
+            try:
+                ctx.scheme_models[f.name] = S.build(ctx.sm, f)
+            except AnalysisError as e:
+                ctx._scheme_model_errors[f.name] = str(e)
     return ctx.scheme_models
+
+
+def check_single_pass(ctx: Ctx, rule: str, builder_name: str) -> bool:
+    """The equations a builder returns are ONE pass over ode.sorted_assignments(remove_unused=remove_unused) in which
+    every assignment is printed first, unconditionally, as `symbol = expr` (so that every definition precedes its
+    uses whatever refers to whatever).  Judged on the builder's abstract value."""
+    from sa import av
+
+    from . import util
+
+    f = ctx.sm.func("schemes.py", builder_name)
+    v = util.value_of(ctx, f)
+    key = f.key("single-pass")
+    inner = av._unwrap_seq(v)
+    if av.has_unk(v) and inner[0] != "comp":
+        ctx.undecided(rule, key, f"what {builder_name} returns is not understood ({av.find_all(v, 'unk')[0][1]})", f.where())
+        return False
+    ok, why = False, ""
+    if inner[0] == "comp":
+        bv = ("bv", inner[1])
+        it = inner[2]
+        it_ok = it[0] == "mcall" and it[1] == ("sym", f.params[0]) and it[2] == "sorted_assignments" and (dict(it[4]).get("remove_unused", it[3][0] if it[3] else None) == ("sym", "remove_unused")) and not inner[4]
+        first = inner[3][0] if inner[3] else None
+        first_ok = first is not None and first[0] == "call" and first[1] == "printer" and first[2][:2] == (("attr", bv, "symbol"), ("attr", bv, "expr"))
+        ok = it_ok and first_ok
+        if not it_ok:
+            why = f"it iterates {av.show(it)[:100]}" + (f" filtered by {[av.show(c)[:60] for c in inner[4]]}" if inner[4] else "")
+        elif not first_ok:
+            why = f"the first thing printed for an assignment is {av.show(first)[:100] if first else None}"
+    else:
+        why = f"the equations are {av.show(v)[:220]}"
+    ctx.check(ok, rule, key, "one pass over ode.sorted_assignments(remove_unused=remove_unused); each assignment printed first", f"{builder_name} does not emit its equations in one pass over the dependency-sorted assignments with every assignment printed as it is met ({why}): an assignment that refers to a state derivative (or any later definition) is printed before that definition", f.where())
+    return ok
 
 
 def alias_table(ctx: Ctx) -> tuple[Func, dict[str, str]]:
